@@ -101,6 +101,7 @@ def one_history(ctx, rng, kind, with_objective=True, max_constraints=4):
         hist.append(["objective", obj])
     lineage = set()
     recorded = []
+    left_behind = []
 
     def interleaved_validity(when):
         """is_solution_valid between the steps of the history (not only at its end)"""
@@ -266,6 +267,9 @@ def one_history(ctx, rng, kind, with_objective=True, max_constraints=4):
                 if how != "iadd-model" and (H2 is H or type(H2) is not T or ref.from_raw(kind, dict(H2)) != t0):
                     ctx.violation("%s:copy-differs" % how, "%s gave %s %r" % (how, type(H2).__name__, dict(H2)), w_)
                     return
+                if how in ("deepcopy", "copy()", "copy-constructor") and len(left_behind) < 3:
+                    # the history goes on with the copy; the original keeps what it recorded so far
+                    left_behind.append((H, {k_: [dict(p_) for p_ in v_] for k_, v_ in H.constraints.items()}, H.num_ancillas, how))
                 H = H2
             hist.append([how] + ([dict(extra)] if "model" in how else []))
             ctx.cat("between-constraints:" + how)
@@ -340,6 +344,12 @@ def one_history(ctx, rng, kind, with_objective=True, max_constraints=4):
             if bool(got) != want:
                 ctx.violation("is_solution_valid-disagrees", "is_solution_valid(%r)=%r, relations say %r" % (x2, got, want), w)
                 return
+    for M0, cons0, anc0, how0 in left_behind:
+        ctx.count("left-behind-original-checks")
+        if {k_: [dict(p_) for p_ in v_] for k_, v_ in M0.constraints.items()} != cons0 or M0.num_ancillas != anc0:
+            ctx.violation("%s:original-follows-the-copy" % how0, "constraints added to a copy changed what the original (left behind at the %s step) records: %r -> %r" % (
+                how0, cons0, M0.constraints), w)
+            return
     # recorded constraints attribute
     cons = H.constraints
     exp_cons = {}
